@@ -434,7 +434,7 @@ def r11_4(ctx):
 
     # prologue rule of sub-routine bodies (shared with C08)
     sub = type("Ctx", (), {})()
-    r08_6(ctx)
+    r08_6(ctx, namespacing=False)
     # getter naming
     fg = idx.func("RZILInstruction.gen_hex_il_op_getter_name")
     for name, part, decl, exp in (("A2_add", -1, False, "hex_il_op_a2_add"), ("J4_cmpeq_tp0_jump_t", 0, False, "hex_il_op_j4_cmpeq_tp0_jump_t_part0"), ("J4_cmpeq_tp0_jump_t", 1, False, "hex_il_op_j4_cmpeq_tp0_jump_t_part1"),
